@@ -201,7 +201,23 @@ def one_case(ctx, rng, length):
     out = "".join(flagc(i.are_normals_on_out_rays_side) for i in path.interfaces)
     line = f"rgcache {n} {inc} {out} 0 " + " ".join(enc_op(o) for o in ops)
     cj = {"numinterfaces": n, "inc_flags": inc, "out_flags": out, "ops": [enc_op(o) for o in ops]}
+    nv = len(ctx.violations)
     obs = run_history(ctx, path, ops, cj)
+    if len(ctx.violations) > nv and len(ops) > 1:
+        # shrink the failing history: delete operations while a fresh cached object still disagrees with an uncached one
+        from common import ProbeCtx, shrink_ops
+
+        def fails(sub):
+            pc = ProbeCtx(ctx)
+            run_history(pc, path, sub, {})
+            return bool(pc.violations)
+        small = shrink_ops(ops, fails)
+        pc = ProbeCtx(ctx)
+        cjs = {"numinterfaces": n, "inc_flags": inc, "out_flags": out, "ops": [enc_op(o) for o in small], "shrunk_from": len(ops)}
+        run_history(pc, path, small, cjs)
+        if pc.violations:
+            v = pc.violations[0]
+            ctx.violations.insert(0, {"what": v["what"] + f" [history shrunk from {len(ops)} to {len(small)} operations]", "case": cjs, "tags": v["tags"]})
     return line, obs, cj, ops
 
 
